@@ -43,11 +43,12 @@ def build_inputs(n, profile_idx, winner, hint=None, reverse=False):
     return con, cvrs
 
 
-def call_raire(n, profile_idx, winner, kind, hint=None, reverse=False):
+def call_raire(n, profile_idx, winner, kind, hint=None, reverse=False, agap=None):
     """run the real generator; returns list of normalised assertions or ('exc', msg)"""
     con, cvrs = build_inputs(n, profile_idx, winner, hint, reverse)
     try:
-        res = compute_raire_assertions(con, cvrs, NAMES[winner], FUNCS[kind], False, stream=io.StringIO())
+        kw = {} if agap is None else {"agap": agap}
+        res = compute_raire_assertions(con, cvrs, NAMES[winner], FUNCS[kind], False, stream=io.StringIO(), **kw)
     except Exception as e:  # noqa
         return ("exc", f"{type(e).__name__}: {str(e)[:80]}"), None, None
     return normalise(res), res, cvrs
